@@ -121,8 +121,10 @@ def cfg_C05(tier, rng):
 
 
 def cfg_C13(tier, rng):
-    k = 25 if tier == QUICK else 120
+    k = 12 if tier == QUICK else 120
     charts = gc.family_f3(rng, k, nmin=3, nmax=5, tmin=3, tmax=6, nev=2, max_oracle=1, time_guards=True)
+    charts += gc.family_f3(rng, max(4, k // 3), nmin=3, nmax=5, tmin=3, tmax=5, nev=2, max_oracle=1, time_guards=True,
+                           contracts=True)      # after() / idle() inside post-conditions and invariants
     for c in charts:   # clock ticks during the step
         for t in c['trans']:
             if rng.random() < 0.3:
